@@ -2,5 +2,5 @@ From Coq Require Import ExtrOcamlBasic.
 From MV Require Import Gen.Consts Rec.RecModel Rec.RecInst.
 Extraction Language OCaml.
 Cd "../ocaml/gen".
-Extraction "m_c02.ml" i_run_wire i_seal_cbc i_seal_gcm12 i_seal_chacha12 i_seal_tls13 i_open_tls13_orig Nat.add.
+Extraction "m_c02.ml" i_run_wire i_seal_cbc i_seal_gcm12 i_seal_chacha12 i_seal_tls13 i_seal_tls13_block i_open_tls13_orig Nat.add.
 Cd "../../coq".
